@@ -433,4 +433,41 @@ def withSibling (n1 : String) (c1 : Call) (n2 : String) (c2 : Call) (edits2 edit
   let out := if y.isSelf then y2 else o1
   exitBlock n1 c1 y.recorded y.isSelf y2 out
 
+/-! ### bindings: which tensor (storage) every leaf path names
+
+The metadata state above cannot tell `update(…, inplace=False)` (the original's entries are REBOUND to the tensors of the inverse image)
+from `update(…, inplace=True)` / `update_` (the data is copied INTO the tensors the original already holds): both leave the same key
+set. `Binds` records, per leaf path, an identifier of the tensor it is bound to (observed as the storage pointer by the harness). -/
+
+abbrev Binds := List (Key × Nat)
+
+def lookupB : Binds → Key → Option Nat
+  | [], _ => none
+  | (k', id) :: b, k => if k' = k then some id else lookupB b k
+
+/-- one entry of `out.update(inv, inplace=False)`: an existing leaf path is rebound to the new tensor; a new path is added (a leaf
+replaces a node of the same name and vice versa, as in `insertPath`) -/
+def bindPath (b : Binds) (p : Key × Nat) : Binds :=
+  if (lookupB b p.1).isSome then b.map (fun q => if q.1 = p.1 then (q.1, p.2) else q)
+  else (b.filter (fun q => !(isPrefixKey q.1 p.1) && !(isPrefixKey p.1 q.1))) ++ [p]
+
+/-- the tail of every `_reverse_*`: `out.update_(inv)` when the original is locked (in place: no binding changes, paths that are
+not in `out` are ignored), `out.update(inv, inplace=False)` when it is not -/
+def writeBackB (locked : Bool) (out inv : Binds) : Binds :=
+  if locked then out else inv.foldl bindPath out
+
+/-- the paths of the inverse image, given the bindings of the (modified) yielded object: shape ops keep the paths,
+`flatten_keys` is undone by `unflatten_keys` and vice versa (separator as bound from the spelled call) -/
+def invBinds (name : String) (c : Call) (y : Binds) : Except Err Binds :=
+  match toOp name c with
+  | .error e => .error e
+  | .ok (.flattenKeys sep) => .ok (y.map fun p => (unflattenKey sep p.1, p.2))
+  | .ok (.unflattenKeys sep) => .ok (y.map fun p => (flattenKey sep p.1, p.2))
+  | .ok _ => .ok y
+
+/-- bindings of the original after `__exit__` -/
+def exitBinds (name : String) (c : Call) (locked : Bool) (out y : Binds) : Except Err Binds := do
+  let inv ← invBinds name c y
+  pure (writeBackB locked out inv)
+
 end TdVerif.C17
